@@ -1,6 +1,17 @@
 """Property table of the /verif harness: property id -> level + check units."""
 
 BPV7 = "pkg/bpv7"
+MSGS = "pkg/cla/tcpclv4/internal/msgs"
+UTILS = "pkg/cla/tcpclv4/internal/utils"
+STAGES = "pkg/cla/tcpclv4/internal/stages"
+TCPCL = "pkg/cla/tcpclv4"
+MTCP = "pkg/cla/mtcp"
+BBC = "pkg/cla/bbc"
+CLA = "pkg/cla"
+DISCOVERY = "pkg/discovery"
+AGENT = "pkg/agent"
+ROUTING = "pkg/routing"
+STORAGE = "pkg/storage"
 
 HOOK_COMMITS = []
 NOT_YET = {}
@@ -70,6 +81,25 @@ PROPS = {
         "units": [
             {"name": "c10.random", "pkg": BPV7, "test": "TestVerifC10Random", "shards_t": 16},
             {"name": "c10.small", "pkg": BPV7, "test": "TestVerifC10Small", "shards_t": 16, "shards_q": 4},
+        ],
+    },
+    "C17": {
+        "level": "exploration",
+        "technique": "rapid round-trip property tests with stream-alignment sentinel + exhaustive enumeration of all code-field / header-byte values; endpoint-ID grammar with near-misses",
+        "level_text": "decode(encode(x)) = x and 'reader stops exactly at the end of the encoding' are checked for generated values with every field at its boundaries and for concatenated streams; every code field and header byte is enumerated over all 256 values (exhaustive) for reject-iff-invalid.",
+        "level_note": "status reports are built through the constructors only; ipn leading zeros are not treated as a second spelling (see DESIGN.md)",
+        "assumptions": ["SESS_INIT node IDs <= 65535 bytes", "status items only as produced by the constructors"],
+        "units": [
+            {"name": "c17.tcpcl-stream", "pkg": MSGS, "test": "TestVerifC17MsgsStream", "shards_t": 8},
+            {"name": "c17.tcpcl-codes", "pkg": MSGS, "test": "TestVerifC17MsgsCodes"},
+            {"name": "c17.eid-struct", "pkg": BPV7, "test": "TestVerifC17EIDStruct", "shards_t": 8},
+            {"name": "c17.eid-nearmiss", "pkg": BPV7, "test": "TestVerifC17EIDNearMisses"},
+            {"name": "c17.eid-text", "pkg": BPV7, "test": "TestVerifC17EIDText", "shards_t": 8},
+            {"name": "c17.reports", "pkg": BPV7, "test": "TestVerifC17Reports", "shards_t": 8},
+            {"name": "c17.announcements", "pkg": DISCOVERY, "test": "TestVerifC17Announcements", "shards_t": 4},
+            {"name": "c17.wam", "pkg": AGENT, "test": "TestVerifC17Wam", "shards_t": 8},
+            {"name": "c17.bbc-header", "pkg": BBC, "test": "TestVerifC17FragmentHeader"},
+            {"name": "c17.bbc-short", "pkg": BBC, "test": "TestVerifC17FragmentShort"},
         ],
     },
 }
